@@ -1036,7 +1036,9 @@ Lemma maybe_commit_matched r r' b : maybe_commit r = Ok (r', b) -> same_matched 
 Proof.
   unfold maybe_commit. intros H. inv_bind H. destruct x as [l' b'].
   destruct b'.
-  - destruct (get_pr r (r_id r)) as [pr|] eqn:Hg; [|discriminate]. inversion H; subst.
+  - destruct (get_pr r (r_id r)) as [pr|] eqn:Hg;
+      [|inversion H; subst; apply same_matched_prs; reflexivity].
+    inversion H; subst.
     eapply same_matched_trans with (b := r <| r_log := l' |>); [apply same_matched_prs; reflexivity|].
     eapply same_matched_put.
     + change (get_pr (r <| r_log := l' |>) (r_id (r <| r_log := l' |>))) with (get_pr r (r_id r)).
@@ -1481,20 +1483,23 @@ Proof.
     right. rewrite B1, B2, L1, L2. cbn. auto.
 Qed.
 
-(* MAIN 4c: [hup] on a non-leader with no unapplied membership change always campaigns:
+(* MAIN 4c: [hup] on a non-leader whose scan of its window (C09 hup_scan: from the pending
+   snapshot, or max (applied + 1) first_index, to committed) finds no unapplied membership
+   change always campaigns:
    the node ends as PreCandidate (pre_vote, same term), as Candidate of term + 1 having
    voted for itself, or - when its own vote is already a quorum - as Leader of term + 1.
    (Blocked case: C09 hup_blocked.) *)
 Theorem hup_campaigns r r' :
   is_leader r = false ->
-  has_unapplied_conf_changes r (hup_low r) (committed (r_log r) + 1) = Ok false ->
+  hup_scan r false ->
   hup r false = Ok r' ->
   (r_state r' = PreCandidate /\ r_pre_vote r = true /\ r_term r' = r_term r) \/
   (r_state r' = Candidate /\ r_term r' = r_term r + 1 /\ r_vote r' = r_id r) \/
   (r_state r' = Leader /\ r_term r' = r_term r + 1).
 Proof.
   intros Hl Hc H. apply hup_spec in H.
-  destruct H as [[E _]|[(_ & E & _)|(_ & _ & H)]]; [congruence|congruence|].
+  destruct H as [[E _]|[(_ & E & _)|(_ & _ & H)]]; [congruence| |].
+  { destruct Hc as (lo1 & A1 & B1). destruct E as (lo2 & A2 & B2). congruence. }
   unfold hup_campaign in H. destruct (r_pre_vote r) eqn:Epv.
   2:{ right. apply campaign_real_role in H. exact H. }
   unfold campaign_pre in H. inv_bind H. rename x into r1.
